@@ -500,10 +500,24 @@ fn check_api(case: &ApiCase, ctx: &mut CaseCtx<'_>) -> Result<(), String> {
     if case.shards.is_empty() || case.shards.iter().any(|&n| n == 0 || n > 256) {
         return Ok(());
     }
-    vcore::block_on(run_api(case, ctx))
+    // one twin run (1 shard vs N shards) per shard count, so that the known-finding exclusions
+    // are computed for exactly that N and do not leak from a large N to a small one
+    let mut nontrivial = false;
+    for &n in &case.shards {
+        let sub = ApiCase {
+            shards: vec![n],
+            steps: case.steps.clone(),
+        };
+        nontrivial |= vcore::block_on(run_api(&sub, ctx))?;
+    }
+    ctx.label(&format!("shards={:?}", case.shards));
+    if nontrivial {
+        ctx.nontrivial(&serde_json::to_string(case).unwrap_or_default());
+    }
+    Ok(())
 }
 
-async fn run_api(case: &ApiCase, ctx: &mut CaseCtx<'_>) -> Result<(), String> {
+async fn run_api(case: &ApiCase, ctx: &mut CaseCtx<'_>) -> Result<bool, String> {
     let r = routing();
     let time = VerifTime::new(0);
     let reference = mk_state(1, &time);
@@ -759,11 +773,7 @@ async fn run_api(case: &ApiCase, ctx: &mut CaseCtx<'_>) -> Result<(), String> {
     if spread {
         ctx.label("keys_on_2plus_shards");
     }
-    ctx.label(&format!("shards={:?}", case.shards));
-    if spread && (multi || mix) {
-        ctx.nontrivial(&serde_json::to_string(case).unwrap_or_default());
-    }
-    Ok(())
+    Ok(spread && (multi || mix))
 }
 
 // ---------------------------------------------------------------------------------------
@@ -809,7 +819,7 @@ fn clock_ms() -> BoxedStrategy<u64> {
     .boxed()
 }
 
-fn step_strategy() -> BoxedStrategy<Step> {
+fn step_strategy() -> BoxedStrategy<Vec<Step>> {
     let o = api_opts();
     let path = || {
         prop_oneof![
@@ -819,7 +829,7 @@ fn step_strategy() -> BoxedStrategy<Step> {
             2 => Just(Path::Batch),
         ]
     };
-    prop_oneof![
+    let single: BoxedStrategy<Step> = prop_oneof![
         50 => gen::data_command(&o).prop_map(|argv| Step::Cmd { argv, path: Path::Generic }),
         8 => extra_commands(&o).prop_map(|argv| Step::Cmd { argv, path: Path::Generic }),
         14 => (gen::key(&o), path()).prop_map(|(k, path)| Step::Cmd { argv: a(&[b"GET", &k]), path }),
@@ -829,6 +839,32 @@ fn step_strategy() -> BoxedStrategy<Step> {
         4 => proptest::collection::vec((gen::key(&o), gen::value()), 1..6)
             .prop_map(|pairs| Step::BatchSet { pairs }),
         8 => (clock_ms(), any::<bool>()).prop_map(|(ms, evict)| Step::Clock { ms, evict }),
+    ]
+    .boxed();
+    // aimed at a tiny region: a deadline, a clock step around it (with or without the TTL
+    // manager's tick), then a read of that key through a generated entry path
+    let ttl_probe = (gen::key(&o), gen::value(), 1u64..40, 0u64..3, any::<bool>(), path(), any::<bool>()).prop_map(
+        |(k, v, ttl, rel, evict, path, batch)| {
+            let ms = match rel {
+                0 => ttl - 1,
+                1 => ttl,
+                _ => ttl + 1,
+            };
+            let read = if batch {
+                Step::BatchGet { keys: vec![k.clone()] }
+            } else {
+                Step::Cmd { argv: a(&[b"GET", &k]), path }
+            };
+            vec![
+                Step::Cmd { argv: a(&[b"SET", &k, &v, b"PX", ttl.to_string().as_bytes()]), path: Path::Generic },
+                Step::Clock { ms, evict },
+                read,
+            ]
+        },
+    );
+    prop_oneof![
+        40 => single.prop_map(|s| vec![s]),
+        1 => ttl_probe,
     ]
     .boxed()
 }
@@ -857,7 +893,7 @@ fn api_case(thorough: bool) -> BoxedStrategy<ApiCase> {
             .boxed()
     };
     (shards, proptest::collection::vec(step_strategy(), 1..40))
-        .prop_map(|(shards, steps)| ApiCase { shards, steps })
+        .prop_map(|(shards, groups)| ApiCase { shards, steps: groups.into_iter().flatten().collect() })
         .boxed()
 }
 
@@ -1074,14 +1110,6 @@ fn check_conn(case: &ConnCase, ctx: &mut CaseCtx<'_>) -> Result<(), String> {
     let rn = decode_stream(&bn).map_err(|(_, off, why)| {
         format!("{}-shard server wrote a malformed reply stream at byte {}: {}", n, off, why)
     })?;
-    if std::env::var("C03_DEBUG").is_ok() {
-        eprintln!(
-            "conn debug: 1 shard {:?} | {} shards {:?}",
-            r1.iter().map(|r| r.show()).collect::<Vec<_>>(),
-            n,
-            rn.iter().map(|r| r.show()).collect::<Vec<_>>()
-        );
-    }
     if r1.len() != rn.len() {
         return Err(format!(
             "same byte stream: the 1-shard server wrote {} replies, the {}-shard server {}\n    program:\n{}",
@@ -1307,11 +1335,11 @@ fn main() {
         "api_diff",
         "program on ShardedActorState<VerifTime>: 1 shard vs N shards, step-wise replies + final dump + one home per key",
     );
-    s.run_cases("api_diff", s.scale(12_000, 40_000), || api_case(thorough), check_api);
+    s.run_cases("api_diff", s.scale(20_000, 400_000), || api_case(thorough), check_api);
     s.describe_check(
         "conn_diff",
         "same byte stream and segmentation through two connection handlers (1 shard vs N shards): reply streams + final dump",
     );
-    s.run_cases("conn_diff", s.scale(6_000, 150_000), conn_case, check_conn);
+    s.run_cases("conn_diff", s.scale(10_000, 300_000), conn_case, check_conn);
     s.finish();
 }
